@@ -40,8 +40,8 @@ import (
 const (
 	specID     = "LAV1"
 	epochSize  = 10
-	blockDist  = 10 // GetEpochSizeMultipliedByRecommendedEpochNumToCollectPayment (epoch size × 1)
-	startEpoch = 20
+	blockDist  = 20 // GetEpochSizeMultipliedByRecommendedEpochNumToCollectPayment (epoch size × 2)
+	startEpoch = 30 // relays of epoch 20 are still valid (20 > 30-20), so proofs of both epochs can arrive from the start
 	maxSubs    = 1 + rewardserver.MaxPaymentRequestsRetiresForSession // property: once plus at most the configured retries
 	giveUp     = rewardserver.MaxPaymentRequestsRetiresForSession     // failed submissions after which dropping a proof is by design
 	hugeSnap   = 1 << 30                                              // snapshot threshold / timeout out of reach
@@ -582,7 +582,12 @@ func (s *scen) onDelete(key, shape string) {
 		delete(s.should, k)
 		return
 	}
-	ent.lostBy = s.cause + ":" + shape
+	// two stable shapes: the stored proof had been submitted (its retries are cut short) or never was
+	how := "never-submitted"
+	if st := s.gs[ent.g]; st != nil && st.subs > 0 {
+		how = "retried-fewer-than-max"
+	}
+	ent.lostBy = s.cause + ":" + shape + ":" + how
 	s.should[k] = ent
 }
 
@@ -1049,11 +1054,21 @@ func (s *scen) Hash() []byte {
 	return s.hashNow()
 }
 
+// hashNow: the two session ids are interchangeable (the code only compares them for equality), so a state
+// and its mirror image under 7<->8 are merged.
 func (s *scen) hashNow() []byte {
+	a, b := s.hashPerm(0), s.hashPerm(1)
+	if bytes.Compare(a, b) <= 0 {
+		return a
+	}
+	return b
+}
+
+func (s *scen) hashPerm(sw int) []byte {
 	h := sha256.New()
 	e := s.E
-	if e > 50 {
-		e = 50 // every comparison the server and the harness make with E has the same outcome for all E >= 50
+	if e > 60 {
+		e = 60 // every comparison the server and the harness make with E has the same outcome for all E >= 60
 	}
 	fmt.Fprintf(h, "E%d M%d|", e, s.mIdx)
 	dump := s.memoryDump()
@@ -1072,23 +1087,32 @@ func (s *scen) hashNow() []byte {
 		}
 		return fmt.Sprintf("%d/%d", st.subs, st.fails)
 	}
-	for k := 0; k < 8; k++ {
+	for kk := 0; kk < 8; kk++ {
+		k := kk ^ sw
 		var mcu uint64
 		if p := dump[k]; p != nil {
 			mcu = p.CuSum
 		}
-		fmt.Fprintf(h, "k%d p%d m%d d%d", k, s.pending[k], mcu, dbcu[k])
+		fmt.Fprintf(h, "k%d p%d m%d d%d", kk, s.pending[k], mcu, dbcu[k])
 		if ent, ok := s.should[k]; ok {
 			fmt.Fprintf(h, " s%d,cur=%v,%s,%s", ent.cu, ent.g.g == s.gen[k], stat(ent.g), ent.lostBy)
 		}
 		fmt.Fprintf(h, " pay%v|", s.paidable[k])
 	}
 	rt := s.srv.VerifDumpRetries()
-	sort.Slice(rt, func(i, j int) bool { return rt[i].Key < rt[j].Key })
+	skey := func(key uint64) int {
+		for si, id := range sessions {
+			if id == key {
+				return si ^ sw
+			}
+		}
+		return -1
+	}
+	sort.Slice(rt, func(i, j int) bool { return skey(rt[i].Key) < skey(rt[j].Key) })
 	for _, r := range rt {
 		id := s.ptr[r.Session]
 		ent, ok := s.should[id.k]
-		fmt.Fprintf(h, "r%d:k%d,cu%d,a%d,%s,inDB=%v|", r.Key, id.k, r.Session.CuSum, r.Attempts, stat(id), ok && ent.g == id)
+		fmt.Fprintf(h, "r%d:k%d,cu%d,a%d,%s,inDB=%v|", skey(r.Key), id.k^sw, r.Session.CuSum, r.Attempts, stat(id), ok && ent.g == id)
 	}
 	return h.Sum(nil)[:16]
 }
